@@ -9,18 +9,27 @@ if "--offset" in sys.argv:
     offset = int(sys.argv[sys.argv.index("--offset") + 1])
 if "--only" in sys.argv:
     only = sys.argv[sys.argv.index("--only") + 1].split(",")
+rnd = None
+if "--round" in sys.argv:
+    rnd = int(sys.argv[sys.argv.index("--round") + 1])
+auto = "--auto-offset" in sys.argv  # continue numbering after the highest existing m<k> of the property
 out = "/verif/seeded"
 for prop in sorted(os.listdir(root)):
     mdir = os.path.join(root, prop, "_mut")
     if not os.path.isdir(mdir):
         continue
+    if auto:
+        have = [int(re.match(r".*-m(\d+)$", d).group(1)) for d in os.listdir(out) if re.match(prop + r"-m\d+$", d)]
+        offset = max(have) if have else 0
+    k = 0
     for m in sorted(os.listdir(mdir)):
         src = os.path.join(mdir, m)
-        if not os.path.exists(os.path.join(src, "patch.diff")):
+        if not os.path.exists(os.path.join(src, "patch.diff")) or not re.match(r"m\d+", m):
             continue
+        k += 1
         if only and f"{prop}-{m}" not in only:
             continue
-        sid = f"{prop}-m{int(m[1:]) + offset}" if offset else f"{prop}-{m}"
+        sid = f"{prop}-m{k + offset}" if (offset or auto) else f"{prop}-{m}"
         dst = os.path.join(out, sid)
         os.makedirs(dst, exist_ok=True)
         for f in os.listdir(src):
@@ -35,6 +44,8 @@ for prop in sorted(os.listdir(root)):
             pk = re.search(r"^package (\w+)", open(os.path.join(src, demo[0])).read(), re.M)
             if pk and pk.group(1).startswith("model"):
                 demo_dir = "model"
+            if pk and pk.group(1).startswith("integrationtests"):
+                demo_dir = "integration_tests"
         # "needs to manifest" section
         needs = ""
         secs = re.split(r"^#+ ", readme, flags=re.M)
@@ -56,7 +67,7 @@ for prop in sorted(os.listdir(root)):
             "demo": demo[0] if demo else None,
             "demo_dir": demo_dir,
             "needs_to_manifest": needs[:1200],
-            "round": 2 if offset else 1,
+            "round": rnd if rnd else (2 if offset else 1),
             "origin": "written by a fresh sub-agent that was given only the property text and a scratch worktree of the repository; nothing from /verif",
             "verified": {
                 "how": "selftest/seedtest.sh <dir> <property> verify on a scratch copy of /repo: (1) demo copied into demo_dir on the unchanged tree: go test -vet=off -count=1 ./<demo_dir>/ -run 'C[0-9]+|Demo|demo' ; (2) git apply patch.diff, go build ./..., go test -vet=off -count=1 ./... ; (3) demo again with the patch",
